@@ -281,7 +281,8 @@ def run_case(case, ctx):
         want, w = stages.crop_stage(src, box_)
         # file headers unchanged except the documented sample-count patch
         sh = bytearray(T.raw[4096:4096 + 3600])
-        sh[3220:3222] = struct.pack(">H", len(want.samples))
+        if len(want.samples) <= 0xFFFF:     # (a 16-bit field: longer traces cannot be stated in it)
+            sh[3220:3222] = struct.pack(">H", len(want.samples))
         want.segy_header = bytes(sh)
         stages.check_file(path_, want, what)
         # every stored tracefield array equals the source's restricted to the box
